@@ -415,7 +415,7 @@ func init() {
 	fw.Register(&fw.Property{
 		ID:     "C05",
 		Run:    runC05,
-		Rule:   "inputs = every token sequence up to the tier's length over a 26-token alphabet (space-joined and unseparated), every truncation of a window of every .lisp/.mal file under /repo plus hostile single-rune substitutions, seeded random byte/Unicode/nested texts and preamble shapes; each input goes through 9 reader entry points (READ ±cursor ±environment, READWithPreamble, Read_str with empty/filled placeholder map, read-string via EVAL) and PRINT on success, each under recover() and a 10 s/30 s watchdog; distinct = distinct input texts shorter than 40 bytes; in addition Go's coverage-guided fuzzer (FuzzRead, count-based budget) mutates the repository's sources through 7 entry points",
+		Rule:   "inputs = every token sequence up to the tier's length over a 26-token alphabet (space-joined and unseparated), every truncation of a window of every .lisp/.mal file under /repo plus hostile single-rune substitutions, seeded random byte/Unicode/nested texts and preamble shapes; each input goes through 9 reader entry points (READ ±cursor ±environment, READWithPreamble, Read_str with empty/filled placeholder map, read-string via EVAL) and PRINT on success, each under recover() and a 10 s/30 s watchdog; distinct = distinct input texts shorter than 40 bytes; in addition Go's coverage-guided fuzzer (FuzzRead, count-based budget) mutates the repository's sources through 7 entry points; preamble chains of 20-50 lines whose values mention earlier placeholders several times",
 		Assume: []string{"inputs are at most a few KiB and nested at most 200 deep (host-stack exhaustion on megabytes of '(' is excluded)", "a hang is declared only after 30 s on a re-run; slower-than-10 s cases are counted, not judged"},
 		Finish: func(m *fw.Merged) {
 			c05Fuzz(m)
